@@ -23,9 +23,9 @@ def one(ctx, kind, seed, ncalls, budget, tag):
         m = re.match(r'^(Q|K) (\S+) (\S+) BAD (.*)$', line)
         if m:
             fails.append(Failure(ctx.prop, 'reply', m.group(3), m.group(4)[:300], replay=dict(rep, call=m.group(2))))
-        m = re.match(r'^G (\d+) (\S+) BAD (.*)$', line)
+        m = re.match(r'^G (\d+|-) (\S+) BAD (.*)$', line)
         if m:
-            fails.append(Failure(ctx.prop, 'crash', re.sub(r'\d+', 'N', m.group(3))[:60], m.group(3)[:300], replay=dict(rep, crash_point=int(m.group(1)), pattern=m.group(2))))
+            fails.append(Failure(ctx.prop, 'crash', re.sub(r'\d+', 'N', m.group(3))[:60], m.group(3)[:300], replay=dict(rep, crash_point=(int(m.group(1)) if m.group(1).isdigit() else -1), pattern=m.group(2))))
         if line.startswith('DONE'):
             st = dict(t.split('=') for t in line.split()[1:])
     if rc2 != 0 or not st:
